@@ -7,6 +7,7 @@ of emmet.expand's output.  Plus a composition sweep (start from non-initial stat
 """
 import itertools
 from emmet import expand
+from mc import session
 from mc.lexers import lex_html, structure
 from mc.ref import abbr_model as M
 
@@ -112,7 +113,7 @@ def observe(abbr, style, fmt, inline=None):
     opts = {'output.selfClosingStyle': style, 'output.format': fmt}
     if inline is not None:
         opts['inlineElements'] = list(inline)
-    out = expand(abbr, {'options': opts})
+    out = expand(abbr, {'options': opts, 'cache': session.CACHE})       # the shard's calls share one cache dict (mc/session.py)
     return structure(lex_html(out)), out
 
 
